@@ -4,151 +4,400 @@
 (*                                                                         *)
 (* This module is (i) the generator of checked programs: an annotated      *)
 (* function  def f(x: TX, y: TY)  whose body is built by a stack machine   *)
-(* from catalogues of expressions, tests and patterns (opaque tokens that  *)
-(* harness/drivers/c01.py renders to Python), together with the argument   *)
-(* tuples drawn from the declared parameter types (Members(TX) x           *)
-(* Members(TY), computed with the Member relation of Values.tla); and      *)
-(* (ii) the acceptance condition for recorded executions: at every         *)
-(* evaluated node the runtime value must be a member of the type pyanalyze *)
-(* inferred for that node (Sound), and a node inferred as Never must not   *)
-(* be evaluated.  The runtime values come from instrumented execution of   *)
-(* the same source under CPython; the abstract machine of the visitor is   *)
-(* modelled component-wise in Scopes.tla (C09), Narrowing (C02),           *)
-(* ValueAlgebra.tla (C14), Assign.tla (C03/C04) and the call specs.        *)
+(* from catalogues of expressions, tests, targets and patterns (source     *)
+(* text tokens; TLC composes the statement lines, harness/drivers/c01.py   *)
+(* only indents them), together with the argument tuples drawn from the    *)
+(* declared parameter types (Members(TX) x Members(TY), computed with the  *)
+(* Member relation of Values.tla); and (ii) the acceptance condition for   *)
+(* recorded executions: at every evaluated node the runtime value must be  *)
+(* a member of the type pyanalyze inferred for that node (Sound), and a    *)
+(* node inferred as Never must not be evaluated.  The runtime values come  *)
+(* from instrumented execution of the same source under CPython; the       *)
+(* abstract machine of the visitor is modelled component-wise in           *)
+(* Scopes.tla (C09), Narrowing (C02), ValueAlgebra.tla (C14), Assign.tla   *)
+(* (C03/C04) and the call specs.                                           *)
+(*                                                                         *)
+(* Fixed frame of every generated function (written by the driver):        *)
+(*   def f(x: TX, y: TY):                                                   *)
+(*       v = 0; e = a = b = c = rest = w = None; ok = False; m = []; d = {} *)
+(*       <generated body>                                                   *)
+(*       x; y; v; a; b; c; rest; e; w; ok; m; d      (epilogue: every local *)
+(*                                      is read once more after all merges) *)
+(* m and d are the only containers that are mutated, and no expression      *)
+(* yields them (only copies), so no container is mutated through an alias.  *)
 (***************************************************************************)
 EXTENDS Values
 
 \* extra runtime objects used as arguments
+I2 == Obj("int", "2")
 T3 == Cont("tuple", <<I1, SA, F15>>)
 T2F == Cont("tuple", <<I1, F15>>)
 LI == Cont("list", <<I1, I0>>)
-ExtraObjs == {T3, T2F, LI, Obj("int", "2"), Obj("str", "ab")}
+P1 == Cont("tuple", <<I1, SA>>)
+P0 == Cont("tuple", <<I0, SE>>)
+ExtraObjs == {T3, T2F, LI, I2, Obj("str", "ab"), Cont("list", <<I1, I0, I2>>), Cont("tuple", <<I1, I0, I2>>),
+              Cont("list", <<P1>>), Cont("list", <<P1, P0>>), Cont("tuple", <<P1, P0>>), Cont("set", <<I1, I0>>),
+              Cont("dict", <<KV(SA, Cont("list", <<I1>>))>>), Cont("dict", <<KV(SA, I1), KV(SB, I0)>>),
+              Cont("list", <<SA, SB>>), Cont("list", <<NONE, I1>>), Cont("tuple", <<SA, I1, I0>>)}
 ArgObjs == Objects \cup ExtraObjs
 
 \* declared parameter types
+TIS == SeqT("tuple", <<One(Typed("int")), One(Typed("str"))>>)
 ParamTypes ==
-    {Typed("int"), Typed("str"), Typed("float"), Typed("object"), Typed("A"), Typed("Color"),
+    {Typed("int"), Typed("str"), Typed("float"), Typed("bool"), Typed("object"), Typed("A"), Typed("Color"),
      Union(<<Typed("int"), Known(NONE)>>), Union(<<Typed("int"), Typed("str")>>), Union(<<Typed("str"), Known(NONE)>>),
-     Union(<<Known(I1), Known(Obj("int", "2"))>>), Union(<<Typed("int"), Generic("list", <<Typed("int")>>)>>),
+     Union(<<Known(I1), Known(I2)>>), Union(<<Typed("int"), Generic("list", <<Typed("int")>>)>>),
+     Union(<<Known(SA), Known(SB)>>), Union(<<Typed("A"), Known(NONE)>>),
      Generic("list", <<Typed("int")>>), Generic("list", <<Typed("str")>>), Generic("tuple", <<Typed("int")>>),
-     SeqT("tuple", <<One(Typed("int")), One(Typed("str"))>>),
-     SeqT("tuple", <<One(Typed("int")), Many(Typed("str")), One(Typed("float"))>>),
+     TIS, SeqT("tuple", <<One(Typed("int")), Many(Typed("str")), One(Typed("float"))>>),
+     SeqT("tuple", <<One(Typed("str")), Many(Typed("int"))>>),
      Generic("dict", <<Typed("str"), Typed("int")>>), Generic("Sequence", <<Typed("int")>>),
-     Union(<<SeqT("tuple", <<One(Typed("int")), One(Typed("str"))>>), Known(NONE)>>)}
+     Union(<<TIS, Known(NONE)>>), Generic("list", <<TIS>>), Generic("tuple", <<TIS>>),
+     Generic("dict", <<Typed("str"), Generic("list", <<Typed("int")>>)>>), Generic("set", <<Typed("int")>>),
+     Generic("list", <<Union(<<Typed("int"), Known(NONE)>>)>>), Generic("Iterable", <<Typed("str")>>)}
 
-Exprs == {"x", "y", "v", "1", "'a'", "None", "(x, y)", "[x]", "{'k': x}", "x[0]", "x[-1]", "x[1]", "x[-2]", "v[0]", "len(x)",
-          "ident(x)", "first(x)", "pair(x, y)", "maybe(x)", "tolist(x)", "x + 1", "x + y", "(x if y else v)", "x['a']",
-          "(x or y)", "(x and y)", "(not x)", "(x == y)", "(*x, y)", "x.value", "x[0:1]", "-x", "(x, *y)", "str(x)"}
-Tests == {"isinstance(x, int)", "isinstance(x, str)", "isinstance(x, tuple)", "isinstance(x, float)", "isinstance(x, (int, str))",
-          "isinstance(x, bool)", "isinstance(x, list)", "x is None", "x is not None", "x == 1", "x != 1", "x in (1, 2)",
-          "len(x) == 2", "x", "not x", "x and y", "isinstance(x, int) or x is None", "isinstance(x, int) and x", "y is None",
-          "x == 'a'", "x is Color.RED", "callable(x)"}
-Patterns == {"int()", "str()", "(a, b)", "[a, *rest]", "None", "1 | 2", "{'a': a}", "_", "(int(), str())", "Color.RED",
-             "[a, b, c]", "float() | bool()", "a"}
+(***************************************************************************)
+(* Catalogues.  *X: tokens that do not mention y; *Y: tokens that do (the   *)
+(* generator varies TY only for bodies that mention y).                     *)
+(***************************************************************************)
+ExprsX ==
+    {"x", "v", "1", "'a'", "None", "[x]", "{'k': x}", "x[0]", "x[-1]", "x[1]", "x[-2]", "v[0]", "len(x)",
+     "ident(x)", "first(x)", "maybe(x)", "tolist(x)", "x + 1", "x['a']", "(not x)", "x.value", "x[0:1]", "-x", "str(x)",
+     \* locals written by unpacking / loops / walrus / with / match captures
+     "a", "b", "rest", "e", "w", "c", "(a, b)", "rest[0]", "a[0]", "w[0]", "[a, *rest]",
+     \* indexing and slicing (tuple / list / Sequence / str / dict getitem impls)
+     "x[1:]", "x[:-1]", "x[::2]", "x[0][0]", "x[-1][0]", "x[len(x) - 1]", "x[0][1]",
+     \* dict impls
+     "x.get('a')", "x.get('a', None)", "x.get('a', 0)", "{'k': x}['k']", "{'k': x}.get('k')", "{'k': x}.get('z')",
+     "list(x.keys())", "list(x.values())", "list(x.items())", "dict(x)", "x.copy()", "{**x}", "{**x, 'z': 1}",
+     "d['k']", "d.get('k')", "d.get('j', x)", "dict(d)", "len(d)", "list(d)",
+     \* the mutated list
+     "m[0]", "m[-1]", "len(m)", "list(m)", "tuple(m)", "m + [x]", "[*m]", "m[0:1]",
+     \* builtins with impl functions or generic typeshed signatures
+     "list(x)", "tuple(x)", "set(x)", "sorted(x)", "list(reversed(x))", "list(enumerate(x))", "max(x)", "min(x)", "abs(x)", "sum(x)",
+     "bool(x)", "int(x)", "float(x)", "repr(x)", "type(x)", "x.upper()", "x.split()", "'{}'.format(x)", "f'{x}'",
+     "x.real", "x.name", "x.count(1)", "x.index(1)",
+     \* arithmetic / operators
+     "x * 2", "x - 1", "x // 2", "x / 2", "x % 2", "x ** 2", "x + 1.5", "x + 'a'", "x[0] + 1", "+x", "~x", "x * 1.5",
+     "x + (1,)", "(1,) + x", "x + [1]", "[None] + x", "x + x", "x * x",
+     \* boolean operators, comparisons, conditional expressions
+     "(x or 0)", "(x or None)", "(x and x[0])", "(x is None)", "(x == 1)", "(x < 1)", "(1 in x)", "(x if x else v)",
+     "(0 if isinstance(x, int) else x)", "(x if x is not None else 0)", "(x if isinstance(x, str) else None)",
+     "(x[0] if x else None)", "(x or [])", "(x and 1)",
+     \* displays with unpacking, comprehensions
+     "(*x, 1)", "[*x]", "(x, x)", "[x, None]", "{x}", "(x,)",
+     "[q for q in x]", "[(q, 1) for q in x]", "{q: 1 for q in x}", "[q for q in x if q]", "[q for q in x if isinstance(q, int)]",
+     "{q for q in x}", "[q[0] for q in x]", "[k for q in x for k in q]", "[q for q in x if q is not None]", "{q: k for q, k in x}",
+     "[q + 1 for q in x]", "list(q for q in x)",
+     \* calls: annotated / generic functions, nested calls, defaults, keywords, *args
+     "ident(first(x))", "first(tolist(x))", "maybe(first(x))", "len(tolist(x))", "swap(pair(x, 1))", "swap(x)", "pair(x, x)[0]",
+     "opt(x)", "opt(x, 1)", "kw(a=x)", "varargs(x, 1)", "varargs(*x)", "second(x)", "unwrap(maybe(x))", "firstkey(x)", "vals(x)",
+     "bothof(x, 1)", "ident(x)[0]", "tolist(x)[0]", "takes_int(x)", "takes_opt(x)", "conv(x)",
+     \* methods, properties, class / static methods of a small generic class
+     "Box(x).get()", "Box(x).item", "Box(x).pair(1)", "Box.make(x).get()", "Box(x).first", "Box(x).map(str).get()",
+     "Box(x).same().get()", "Pt(x, 1).px", "Pt(x, 1).both()", "Pt(1, x).py"}
+ExprsY ==
+    {"y", "(x, y)", "pair(x, y)", "x + y", "(x if y else v)", "(x or y)", "(x and y)", "(x == y)", "(*x, y)", "(x, *y)",
+     "x[y]", "x.get(y)", "x.get('a', y)", "{'k': x, 'j': y}['j']", "{'k': x, 'j': y}", "min(x, y)", "max(x, y)", "list(zip(x, y))",
+     "x * y", "x - y", "(x is y)", "(x in y)", "(x < y)", "[*x, y]", "[*x, *y]", "(*x, *y)", "[(q, y) for q in x]",
+     "{q: y for q in x}", "[q for q in (x, y)]", "swap(pair(x, y))", "pick(x, y)", "second(pair(x, y))", "pair(ident(x), maybe(y))",
+     "kw(a=x, b=y)", "varargs(x, y)", "bothof(x, y)", "Box(x).pair(y)", "Pt(x, y).both()", "Pt(x, y).py", "m + [y]",
+     "d.get('j', y)", "(y if isinstance(x, int) else x)", "(x if x is not None else y)", "[x, y]", "{x: y}", "y[0]", "len(y)",
+     "{**x, 'z': y}", "dict(k=x, j=y)", "(y or x)", "first(y)", "[k for q in (x, y) for k in q]"}
 
-CONSTANTS MaxStmts, MaxDepth
+TestsX ==
+    {"isinstance(x, int)", "isinstance(x, str)", "isinstance(x, tuple)", "isinstance(x, float)", "isinstance(x, (int, str))",
+     "isinstance(x, bool)", "isinstance(x, list)", "x is None", "x is not None", "x == 1", "x != 1", "x in (1, 2)",
+     "len(x) == 2", "x", "not x", "isinstance(x, int) or x is None", "isinstance(x, int) and x",
+     "x == 'a'", "x is Color.RED", "callable(x)",
+     \* saved conditions, walrus, other locals
+     "ok", "not ok", "(w := x) is not None", "(w := maybe(x))", "isinstance((w := x), int)", "(w := x) and w[0]",
+     "(w := first(x)) is None", "(w := len(x)) > 1", "v", "a", "a is None", "isinstance(a, int)", "rest", "isinstance(v, int)",
+     "e is not None", "isinstance(e, str)", "w",
+     \* more narrowing forms
+     "len(x) > 1", "len(x) >= 2", "len(x) == 3", "'a' in x", "x in ('a', 'b')", "x == 'b'", "isinstance(x, A)", "isinstance(x, B)",
+     "isinstance(x, dict)", "isinstance(x, (list, tuple))", "not isinstance(x, str)", "type(x) is int", "type(x) == str",
+     "hasattr(x, 'value')", "bool(x)", "x.get('a')", "x == Color.RED", "x is not Color.RED", "x in (Color.RED, Color.GREEN)",
+     "x > 0", "0 < x < 2", "x is True", "x and isinstance(x[0], int)", "x[0] is None", "x[0] == 1", "isinstance(x[0], int)",
+     "x is not None and x[0]", "x is None or isinstance(x, int)", "not (x is None)", "isinstance(x, (float, str))",
+     "isinstance(x, Sequence)", "x != 'a'", "x not in (1, 2)", "x == None", "m", "d", "len(m) == 1", "'k' in d", "all(x)", "x.value == 1"}
+TestsY ==
+    {"x and y", "y is None", "x is y", "x == y", "x != y", "isinstance(y, str)", "x is not None and y is not None",
+     "x is None or y is None", "x in y", "x or y", "y", "not y", "isinstance(x, int) and isinstance(y, int)", "(w := y)",
+     "len(x) == len(y)", "y == 1", "x is None and y"}
 
-VARIABLES stack, n, tx, ty, done
-mvars == <<stack, n, tx, ty, done>>
+PatternsX ==
+    {"int()", "str()", "(a, b)", "[a, *rest]", "None", "1 | 2", "{'a': a}", "_", "(int(), str())", "Color.RED",
+     "[a, b, c]", "float() | bool()", "a",
+     "[a, b, *rest]", "(a, *_)", "{'a': a, **rest}", "int(a)" , "str() as a", "[int(), *rest]", "(1, a)", "'a'", "'a' | 'b'",
+     "True", "A()", "B()", "Color.RED | Color.GREEN", "[]", "[a]", "(int() | str()) as a", "list()", "tuple()", "dict()",
+     "{'a': 1}", "[int() as a, str() as b]", "None | int()", "[(a, b), *rest]", "(a, (b, c))", "{}", "float()", "bool()",
+     "[*rest, a]", "[a, *rest, b]", "int() | None", "list() | tuple()", "Box(item=a)", "Pt(px=a, py=b)", "[None, *rest]",
+     "a if a", "int() if ok", "_ if isinstance(x, str)", "(a, b) if a", "[a, *rest] if rest", "str() if x"}
+PatternsY == {"int() if y", "a if y is None", "_ if isinstance(y, int)", "(a, b) if a == y", "_ if x == y"}
 
-Frame(kind, hdr, shape) == [kind |-> kind, hdr |-> hdr, shape |-> shape, parts |-> << >>, cur |-> << >>]
-Root == Frame("root", "", <<"body">>)
+UnpackTargets == {"a, b", "a, *rest", "(a, b), c", "[a, b]", "a, b, c", "*rest, a", "a, (b, *rest)", "v, x", "a, *rest, b"}
+UnpackExprsX == {"x", "x[0]", "(x, 1)", "[x, None]", "tolist(x)", "pair(x, 1)", "swap(x)", "x[0:2]", "(*x, 1)", "list(x)", "tuple(x)",
+                 "x.split()", "first(x)", "(x, (1, 'a'))", "[*x]", "(x or (1, 2))", "list(x.items())", "(x, x)", "x[1:]", "sorted(x)",
+                 "divmod(x, 2)", "(1, *x)", "Pt(x, 1).both()", "(a, b)", "rest", "m", "(b, a)", "x.popitem()"}
+UnpackExprsY == {"(x, y)", "pair(x, y)", "(x, *y)", "(*x, y)", "x + y", "swap(pair(x, y))", "[x, y]", "(y, x)", "(x if x else y)",
+                 "(x, (y, 1))", "y"}
+AugOps == {"+=", "*=", "-=", "|="}
+AugTargets == {"v", "x", "a"}
+AugExprsX == {"1", "x", "'a'", "[x]", "(x,)", "1.5", "v", "x[0]", "[None]", "2"}
+AugExprsY == {"y", "[y]", "(y,)", "(x, y)"}
+MutLinesX == {"m.append(x)", "m.append(1)", "m.extend(x)", "m.append(None)", "m.insert(0, x)", "m += [x]", "m.extend([x, 1])",
+              "d['k'] = x", "d['j'] = 1", "d.setdefault('k', x)", "d.update({'z': x})", "d.pop('k', None)", "d['k'] = [x]",
+              "m[0] = x", "d.update(k=x)", "m.clear()", "del d['k']", "m.sort()", "m.pop()"}
+MutLinesY == {"m.append(y)", "d['j'] = y", "d.setdefault('j', y)", "m.extend([x, y])", "d.update({'k': x, 'j': y})", "m += [y]"}
+ForTargets == {"e", "a, b", "a, *rest", "(a, b), c", "e, a"}
+ForItersX == {"x", "(x, 1)", "(1, 'a')", "v", "x[0:1]", "[x]", "range(2)", "tolist(x)", "enumerate(x)", "x.items()", "x.values()",
+              "reversed(x)", "sorted(x)", "m", "d", "(x, None)", "[(x, 1)]", "rest", "x[0]", "x.keys()", "d.items()", "list(x)",
+              "[(1, 'a'), (2, 'b')]", "((x, 1), (x, 'a'))", "x.split()"}
+ForItersY == {"y", "(x, y)", "zip(x, y)", "[x, y]", "((x, y),)", "[(x, y), (y, x)]", "x + y", "(*x, y)"}
+WithItemsX == {"ctx()", "ctx() as cm", "give(x) as cm", "suppress(Exception)", "suppress(TypeError, IndexError)", "give(x) as (a, b)",
+               "ctx(), give(x) as cm", "maybe_suppress()", "maybe_suppress() as cm"}
+WithItemsY == {"give((x, y)) as (a, b)", "give(y) as cm", "give(x) as a, give(y) as b"}
+Handlers == {"except Exception:", "except (TypeError, IndexError):", "except Exception as exc:", "except TypeError :", "except:",
+             "except (KeyError, AttributeError, ValueError):"}
+MatchSubjectsX == {"x", "v", "x[0]", "(x, 1)", "[x]", "a", "tolist(x)", "w", "rest"}
+MatchSubjectsY == {"(x, y)", "y", "[x, y]", "pair(x, y)"}
+JumpLines == {"break", "continue"}
+RaiseLines == {"raise ValueError()", "raise TypeError(x)", "return"}
 
-MInit == stack = <<Root>> /\ n = 0 /\ tx = Typed("int") /\ ty = Typed("int") /\ done = "types"
+CONSTANTS MaxStmts, MaxDepth,
+          UseY,      \* FALSE: only tokens that do not mention y are used (TY is then irrelevant and fixed)
+          Cats       \* enabled statement categories
 
-ChooseTypes == done = "types" /\ \E a \in ParamTypes, b \in ParamTypes : tx' = a /\ ty' = b /\ done' = "gen" /\ UNCHANGED <<stack, n>>
+VARIABLES stack, n, tx, ty, done, pick, pend, usesy
+mvars == <<stack, n, tx, ty, done, pick, pend, usesy>>
+
+Frame(kind, hdr, heads, np) == [kind |-> kind, hdr |-> hdr, heads |-> heads, np |-> np, parts |-> << >>, cur |-> << >>]
+Root == Frame("root", "", << >>, 1)
+
+MInit == /\ stack = <<Root>> /\ n = 0 /\ tx = Typed("int") /\ ty = Typed("int") /\ done = "gen" /\ pick = "" /\ pend = << >>
+         /\ usesy = FALSE
 
 Top == stack[Len(stack)]
-Push(s) == stack' = [stack EXCEPT ![Len(stack)].cur = Append(@, s)]
-AfterJump == Top.cur # << >> /\ Top.cur[Len(Top.cur)].k = "return"
+AfterJump == Top.cur # << >> /\ Top.cur[Len(Top.cur)].k = "jump"
+InLoop == \E i \in 1..Len(stack) : stack[i].kind \in {"while", "for"} /\ stack[i].parts = << >>
+
+SimpleCats == {"assign-v", "assign-x", "unpack", "aug", "expr", "return", "assert", "save", "mut", "loopjump", "raise"}
+OpenCats == {"if", "ifelse", "while", "whileelse", "for", "forelse", "try", "with", "match"}
+StructCats == {"next", "close", "finish"}
+
+\* ---- stage A: choose what to do (one successor per category, so that simulation is uniform over categories) ----
+CanSimple == n < MaxStmts /\ ~AfterJump
+CanOpen == n + 1 < MaxStmts /\ Len(stack) <= MaxDepth /\ ~AfterJump
+CanNext == Len(stack) > 1 /\ Len(Top.parts) + 1 < Top.np /\ Top.cur # << >>
+CanClose == Len(stack) > 1 /\ Len(Top.parts) + 1 = Top.np /\ Top.cur # << >>
+CanFinish == Len(stack) = 1 /\ Top.cur # << >>
+Choose ==
+    /\ done = "gen" /\ pick = ""
+    /\ \E cat \in (Cats \cap (SimpleCats \cup OpenCats)) \cup StructCats :
+          /\ CASE cat \in SimpleCats -> CanSimple /\ (cat = "loopjump" => InLoop)
+               [] cat \in OpenCats -> CanOpen
+               [] cat = "next" -> CanNext
+               [] cat = "close" -> CanClose
+               [] cat = "finish" -> CanFinish
+          /\ pick' = cat
+    /\ UNCHANGED <<stack, n, tx, ty, done, pend, usesy>>
+
+\* ---- stage B: choose the tokens of the picked category, one token per step (pend = tokens chosen so far) ----
+PushStmt(s, y) == /\ stack' = [stack EXCEPT ![Len(stack)].cur = Append(@, s)]
+                  /\ n' = n + 1 /\ pick' = "" /\ pend' = << >> /\ usesy' = (usesy \/ y) /\ UNCHANGED <<tx, ty, done>>
+Line(t) == [k |-> "line", line |-> t]
+Jump(t) == [k |-> "jump", line |-> t]
+\* tokens mentioning y are available only when UseY
+YSet(S) == IF UseY THEN S ELSE {}
+\* remember one more token of a statement that needs several
+More(t, y) == /\ pend' = Append(pend, t) /\ usesy' = (usesy \/ y) /\ UNCHANGED <<stack, n, tx, ty, done, pick>>
 
 AddSimple ==
-    /\ done = "gen" /\ n < MaxStmts /\ ~AfterJump
-    /\ \E e \in Exprs :
-         \E s \in {[k |-> "assign", t |-> "v", e |-> e], [k |-> "assign", t |-> "x", e |-> e], [k |-> "expr", e |-> e],
-                   [k |-> "return", e |-> e]} : Push(s)
-    /\ n' = n + 1 /\ UNCHANGED <<tx, ty, done>>
+    /\ done = "gen"
+    /\ \/ pick = "assign-v" /\ \/ \E e \in ExprsX : PushStmt(Line("v = " \o e), FALSE)
+                               \/ \E e \in YSet(ExprsY) : PushStmt(Line("v = " \o e), TRUE)
+       \/ pick = "assign-x" /\ \/ \E e \in ExprsX : PushStmt(Line("x = " \o e), FALSE)
+                               \/ \E e \in YSet(ExprsY) : PushStmt(Line("x = " \o e), TRUE)
+       \/ pick = "expr" /\ \/ \E e \in ExprsX : PushStmt(Line(e), FALSE)
+                           \/ \E e \in YSet(ExprsY) : PushStmt(Line(e), TRUE)
+       \/ pick = "return" /\ \/ \E e \in ExprsX : PushStmt(Jump("return " \o e), FALSE)
+                             \/ \E e \in YSet(ExprsY) : PushStmt(Jump("return " \o e), TRUE)
+       \/ pick = "unpack" /\ pend = << >> /\ \E t \in UnpackTargets : More(t, FALSE)
+       \/ pick = "unpack" /\ pend # << >> /\ \/ \E e \in UnpackExprsX : PushStmt(Line(pend[1] \o " = " \o e), FALSE)
+                                             \/ \E e \in YSet(UnpackExprsY) : PushStmt(Line(pend[1] \o " = " \o e), TRUE)
+       \/ pick = "aug" /\ pend = << >> /\ \E t \in AugTargets, op \in AugOps : More(t \o " " \o op \o " ", FALSE)
+       \/ pick = "aug" /\ pend # << >> /\ \/ \E e \in AugExprsX : PushStmt(Line(pend[1] \o e), FALSE)
+                                          \/ \E e \in YSet(AugExprsY) : PushStmt(Line(pend[1] \o e), TRUE)
+       \/ pick = "assert" /\ \/ \E t \in TestsX : PushStmt(Line("assert " \o t), FALSE)
+                             \/ \E t \in YSet(TestsY) : PushStmt(Line("assert " \o t), TRUE)
+       \/ pick = "save" /\ \/ \E t \in TestsX : PushStmt(Line("ok = " \o t), FALSE)
+                           \/ \E t \in YSet(TestsY) : PushStmt(Line("ok = " \o t), TRUE)
+       \/ pick = "mut" /\ \/ \E t \in MutLinesX : PushStmt(Line(t), FALSE)
+                          \/ \E t \in YSet(MutLinesY) : PushStmt(Line(t), TRUE)
+       \/ pick = "loopjump" /\ \E t \in JumpLines : PushStmt(Jump(t), FALSE)
+       \/ pick = "raise" /\ \E t \in RaiseLines : PushStmt(Jump(t), FALSE)
 
+OpenFrame(f, y) == /\ stack' = Append(stack, f) /\ n' = n + 1 /\ pick' = "" /\ pend' = << >> /\ usesy' = (usesy \/ y)
+                   /\ UNCHANGED <<tx, ty, done>>
+Heads1(kw, t) == <<kw \o " " \o t \o ":">>
+Heads2(kw, t) == <<kw \o " " \o t \o ":", "else:">>
+TryShapes(h) == {<<"try:", h>>, <<"try:", h, "finally:">>, <<"try:", h, "else:">>, <<"try:", h, "else:", "finally:">>,
+                 <<"try:", "finally:">>, <<"try:", "except TypeError :", h>>}
 Open ==
-    /\ done = "gen" /\ n + 1 < MaxStmts /\ Len(stack) <= MaxDepth /\ ~AfterJump
-    /\ \/ \E t \in Tests : \E shape \in {<<"body">>, <<"body", "orelse">>} : stack' = Append(stack, Frame("if", t, shape))
-       \/ \E t \in Tests : stack' = Append(stack, Frame("while", t, <<"body">>))
-       \/ \E e \in {"x", "y", "(x, y)", "(1, 'a')", "v", "x[0:1]"} : stack' = Append(stack, Frame("for", e, <<"body">>))
-       \/ \E shape \in {<<"body", "handler">>, <<"body", "handler", "final">>} : stack' = Append(stack, Frame("try", "", shape))
-       \/ \E p1 \in Patterns, p2 \in Patterns : p1 # p2 /\ stack' = Append(stack, Frame("match", <<p1, p2>>, <<"case", "case">>))
-    /\ n' = n + 1 /\ UNCHANGED <<tx, ty, done>>
+    /\ done = "gen"
+    /\ \/ pick = "if" /\ \/ \E t \in TestsX : OpenFrame(Frame("if", "", Heads1("if", t), 1), FALSE)
+                         \/ \E t \in YSet(TestsY) : OpenFrame(Frame("if", "", Heads1("if", t), 1), TRUE)
+       \/ pick = "ifelse" /\ \/ \E t \in TestsX : OpenFrame(Frame("if", "", Heads2("if", t), 2), FALSE)
+                             \/ \E t \in YSet(TestsY) : OpenFrame(Frame("if", "", Heads2("if", t), 2), TRUE)
+       \/ pick = "while" /\ \/ \E t \in TestsX : OpenFrame(Frame("while", "", Heads1("while", t), 1), FALSE)
+                            \/ \E t \in YSet(TestsY) : OpenFrame(Frame("while", "", Heads1("while", t), 1), TRUE)
+       \/ pick = "whileelse" /\ \/ \E t \in TestsX : OpenFrame(Frame("while", "", Heads2("while", t), 2), FALSE)
+                                \/ \E t \in YSet(TestsY) : OpenFrame(Frame("while", "", Heads2("while", t), 2), TRUE)
+       \/ pick \in {"for", "forelse"} /\ pend = << >> /\ \E t \in ForTargets : More(t, FALSE)
+       \/ pick = "for" /\ pend # << >> /\
+            \/ \E e \in ForItersX : OpenFrame(Frame("for", "", Heads1("for", pend[1] \o " in " \o e), 1), FALSE)
+            \/ \E e \in YSet(ForItersY) : OpenFrame(Frame("for", "", Heads1("for", pend[1] \o " in " \o e), 1), TRUE)
+       \/ pick = "forelse" /\ pend # << >> /\
+            \/ \E e \in ForItersX : OpenFrame(Frame("for", "", Heads2("for", pend[1] \o " in " \o e), 2), FALSE)
+            \/ \E e \in YSet(ForItersY) : OpenFrame(Frame("for", "", Heads2("for", pend[1] \o " in " \o e), 2), TRUE)
+       \/ pick = "try" /\ pend = << >> /\ \E h \in Handlers : More(h, FALSE)
+       \/ pick = "try" /\ pend # << >> /\ \E hs \in TryShapes(pend[1]) : OpenFrame(Frame("try", "", hs, Len(hs)), FALSE)
+       \/ pick = "with" /\ \/ \E w \in WithItemsX : OpenFrame(Frame("with", "", Heads1("with", w), 1), FALSE)
+                           \/ \E w \in YSet(WithItemsY) : OpenFrame(Frame("with", "", Heads1("with", w), 1), TRUE)
+       \/ pick = "match" /\ Len(pend) = 0 /\ \/ \E s \in MatchSubjectsX : More(s, FALSE)
+                                             \/ \E s \in YSet(MatchSubjectsY) : More(s, TRUE)
+       \* an irrefutable pattern is only legal in the last case
+       \/ pick = "match" /\ Len(pend) = 1 /\ \/ \E p \in PatternsX \ {"_", "a"} : More(p, FALSE)
+                                             \/ \E p \in YSet(PatternsY) : More(p, TRUE)
+       \/ pick = "match" /\ Len(pend) = 2 /\ \E p \in PatternsX \ {pend[2]} :
+               OpenFrame(Frame("match", "match " \o pend[1] \o ":", <<"case " \o pend[2] \o ":", "case " \o p \o ":">>, 2), FALSE)
 
 NextPart ==
-    /\ done = "gen" /\ Len(stack) > 1 /\ Len(Top.parts) + 1 < Len(Top.shape) /\ Top.cur # << >>
+    /\ done = "gen" /\ pick = "next"
     /\ stack' = [stack EXCEPT ![Len(stack)] = [@ EXCEPT !.parts = Append(@, Top.cur), !.cur = << >>]]
-    /\ UNCHANGED <<n, tx, ty, done>>
+    /\ pick' = "" /\ UNCHANGED <<n, tx, ty, done, pend, usesy>>
 
 Close ==
-    /\ done = "gen" /\ Len(stack) > 1 /\ Len(Top.parts) + 1 = Len(Top.shape) /\ Top.cur # << >>
-    /\ LET st == [k |-> Top.kind, hdr |-> Top.hdr, shape |-> Top.shape, parts |-> Append(Top.parts, Top.cur)]
+    /\ done = "gen" /\ pick = "close"
+    /\ LET st == [k |-> "block", hdr |-> Top.hdr, heads |-> Top.heads, parts |-> Append(Top.parts, Top.cur)]
            below == SubSeq(stack, 1, Len(stack) - 1)
        IN stack' = [below EXCEPT ![Len(below)].cur = Append(@, st)]
-    /\ UNCHANGED <<n, tx, ty, done>>
+    /\ pick' = "" /\ UNCHANGED <<n, tx, ty, done, pend, usesy>>
 
-Finish == done = "gen" /\ Len(stack) = 1 /\ Top.cur # << >> /\ done' = "done" /\ UNCHANGED <<stack, n, tx, ty>>
+Finish == done = "gen" /\ pick = "finish" /\ done' = "typex" /\ pick' = "" /\ UNCHANGED <<stack, n, tx, ty, pend, usesy>>
 
-MNext == ChooseTypes \/ AddSimple \/ Open \/ NextPart \/ Close \/ Finish
+\* the parameter types are chosen last (one per step); TY only matters if the body mentions y
+ChooseTypes ==
+    \/ done = "typex" /\ (\E ta \in ParamTypes : tx' = ta) /\ done' = "typey" /\ UNCHANGED <<stack, n, ty, pick, pend, usesy>>
+    \/ done = "typey" /\ (\E tb \in IF usesy THEN ParamTypes ELSE {Typed("int")} : ty' = tb) /\ done' = "done"
+       /\ UNCHANGED <<stack, n, tx, pick, pend, usesy>>
+
+MNext == Choose \/ AddSimple \/ Open \/ NextPart \/ Close \/ Finish \/ ChooseTypes
 
 Prog == stack[1].cur
 RECURSIVE SetToSeq(_)
-SetToSeq(S) == IF S = {} THEN << >> ELSE LET x == CHOOSE y \in S : TRUE IN <<x>> \o SetToSeq(S \ {x})
-\* Arguments are drawn from the declared type; bool objects are only passed where bool is declared: True == 1 and
-\* False == 0 compare equal across types, and narrowing by == / in / literal patterns is only claimed for objects
-\* whose equality with the tested literals implies equal type (the same restriction as in property C02).
-ArgsFor(T) == SetToSeq({o \in ArgObjs : Member(o, T) /\ (o.c = "bool" => T = Typed("bool"))})
+SetToSeq(S) == IF S = {} THEN << >> ELSE LET xx == CHOOSE yy \in S : TRUE IN <<xx>> \o SetToSeq(S \ {xx})
+\* Arguments are drawn from the declared type.  Narrowing by == / in / literal patterns is only claimed for objects whose
+\* equality with the tested literals implies equal type (the same restriction as in property C02): bool objects are only
+\* passed where bool is declared (True == 1), and 1.0 (== 1) is not passed at all; computed values that compare equal
+\* across types are handled by the event-level domain predicate CrossEqTest below.
+RECURSIVE EqSafe(_)
+EqSafe(o) == /\ o # FLT1 /\ o.c # "bool"
+             /\ \A i \in 1..Len(o.items) : IF o.c = "dict" THEN EqSafe(o.items[i].key) /\ EqSafe(o.items[i].val) ELSE EqSafe(o.items[i])
+ArgsFor(T) == SetToSeq({o \in ArgObjs : Member(o, T) /\ (EqSafe(o) \/ (o.c = "bool" /\ T = Typed("bool")))})
 
 \* the declared types are inhabited (otherwise no execution would be observed)
 Inhabited == done = "done" => (ArgsFor(tx) # << >> /\ ArgsFor(ty) # << >>)
 
 (***************************************************************************)
 (* Acceptance of a recorded execution                                      *)
+(*                                                                         *)
+(* A recorded execution is a node table (syntactic facts about every       *)
+(* recorded expression node of the function) and the stream of events the  *)
+(* instrumented function produced under CPython:                           *)
+(*   [k |-> "e", n, v, i, j]   node n evaluated to object v; the checker   *)
+(*                             inferred type i for it (j: v and i are in   *)
+(*                             the term universe, i.e. the event is judged)*)
+(*   [k |-> "s", site]         the assignment site `site` (o.stores[site]) *)
+(*                             completed: names := value of node n, which  *)
+(*                             reads the variables r                        *)
+(*   [k |-> "le"|"it"|"lx", loop]  loop entered / iteration begins / left  *)
+(* Sound(e) is the property.  Every other operator below describes a KNOWN *)
+(* deviating mechanism of the unchanged implementation as a predicate on   *)
+(* the EVENT (never on the program): an unsound event is filed under a     *)
+(* class only if the mechanism of that class explains this very event.     *)
 (***************************************************************************)
-\* ---- known deviations of the implementation that surface in executions (see known_findings.jsonl, C01) ----
-RECURSIVE UsesTest(_, _), UsesExpr(_, _), HasGrowthLoop(_, _)
-SubBlocks(st) == IF st.k \in {"if", "while", "for", "try", "match"} THEN st.parts ELSE << >>
-UsesTest(block, S) ==
-    \E i \in 1..Len(block) :
-        \/ block[i].k \in {"if", "while"} /\ block[i].hdr \in S
-        \/ \E j \in 1..Len(SubBlocks(block[i])) : UsesTest(SubBlocks(block[i])[j], S)
-UsesExpr(block, S) ==
-    \E i \in 1..Len(block) :
-        \/ block[i].k \in {"assign", "expr", "return"} /\ block[i].e \in S
-        \/ \E j \in 1..Len(SubBlocks(block[i])) : UsesExpr(SubBlocks(block[i])[j], S)
-GrowthExprs == {"(x, y)", "[x]", "{'k': x}", "pair(x, y)", "maybe(x)", "tolist(x)", "(*x, y)", "(x, *y)", "x + y", "x + 1",
-                "str(x)", "x[0:1]", "(x or y)", "(x and y)", "(x if y else v)"}
-HasGrowthLoop(block, inloop) ==
-    \E i \in 1..Len(block) :
-        \/ inloop /\ block[i].k = "assign" /\ block[i].t = "x" /\ block[i].e \in GrowthExprs
-        \/ \E j \in 1..Len(SubBlocks(block[i])) :
-              HasGrowthLoop(SubBlocks(block[i])[j], inloop \/ block[i].k \in {"while", "for"})
-NumericIsinstance == {"isinstance(x, int)", "isinstance(x, float)", "isinstance(x, (int, str))", "isinstance(x, bool)",
-                      "isinstance(x, int) or x is None", "isinstance(x, int) and x"}
-RECURSIVE HasManyT(_)
-HasManyT(T) ==
-    CASE T.k = "seq" -> \E i \in 1..Len(T.ms) : T.ms[i].many \/ HasManyT(T.ms[i].t)
-      [] T.k = "generic" -> \E i \in 1..Len(T.args) : HasManyT(T.args[i])
-      [] T.k = "union" -> \E i \in 1..Len(T.ms) : HasManyT(T.ms[i])
+\* e = [v |-> runtime object, i |-> inferred type]
+Sound(e) == Member(e.v, e.i)
+
+VarNames == {"x", "y", "v", "w", "ok", "a", "b", "c", "rest", "e", "m", "d", "cm", "g", "h", "s", "t", "k"}
+LoopIds == 1..10
+NoObj == [c |-> "?", v |-> "?", items |-> << >>]
+NoT == [k |-> "skip"]
+
+RECURSIVE SubObjs(_), ObjOK(_)
+SubObjs(o) == {o} \cup UNION {IF o.c = "dict" THEN SubObjs(o.items[i].key) \cup SubObjs(o.items[i].val) ELSE SubObjs(o.items[i]) :
+                               i \in 1..Len(o.items)}
+ObjOK(o) == \A s \in SubObjs(o) : s.c \in Classes
+NumericObj(o) == o.c \in {"int", "bool", "float"}
+ContainsNumeric(o) == \E s \in SubObjs(o) : NumericObj(s)
+ElemsOf(o) == IF o.c = "dict" THEN DictKeys(o) ELSE SeqToSet(o.items)
+
+KeyNumeric == "numeric-promotion-lost-by-isinstance"
+KeyLoop == "loop-carried-growth-not-at-fixpoint"
+KeyTupleAdd == "tuple-add-drops-left-operand"
+KeyCrossEq == "cross-type-equality"
+KeyRejected == "value-of-rejected-expression"
+KeyMatchLeaves == "exhaustive-match-leaves-block"
+
+\* ---- (a) numeric promotion lost by isinstance (same root cause as C02's class of the same name) -----------------
+\* CPython's isinstance versus what the narrowing assumes: typeshed's artificial bases make every int an instance of
+\* float and complex (and every float of complex).  The mechanism mis-predicts the branch exactly when the two differ.
+PyIsInst(o, Cs) == \E c \in Cs : c \in Classes /\ o.c \in Classes /\ IsSubclass(o.c, c)
+ArtIsInst(o, Cs) == PyIsInst(o, Cs) \/ \E c \in Cs : c \in Classes /\ o.c \in Classes /\ Promotes(o.c, c)
+Dev_NumericMispredict(o, Cs) == PyIsInst(o, Cs) # ArtIsInst(o, Cs)
+
+\* ---- (d) domain restriction shared with C02: narrowing by == / != / in / literal patterns is claimed only for ----
+\* objects whose equality with the tested literals implies equal type (1 == 1.0 == True are equal across types)
+\* Python's == on recorded objects (payloads of computed numbers are their repr: 2 == 2.0; small integers suffice)
+NumKey(o) == CASE o.v \in {"1", "True", "1.0"} -> "1"
+               [] o.v \in {"0", "False", "0.0", "-0.0"} -> "0"
+               [] o.v \in {"2", "2.0"} -> "2"
+               [] o.v \in {"3", "3.0"} -> "3"
+               [] o.v \in {"4", "4.0"} -> "4"
+               [] o.v \in {"-1", "-1.0"} -> "-1"
+               [] o.v \in {"-2", "-2.0"} -> "-2"
+               [] OTHER -> o.v
+RECURSIVE PyEq(_, _)
+PyEq(a, b) ==
+    IF a.c \in NumericClasses /\ b.c \in NumericClasses THEN NumKey(a) = NumKey(b)
+    ELSE /\ a.c = b.c /\ a.v = b.v /\ Len(a.items) = Len(b.items)
+         /\ \A i \in 1..Len(a.items) :
+               IF a.c = "dict" THEN PyEq(a.items[i].key, b.items[i].key) /\ PyEq(a.items[i].val, b.items[i].val)
+               ELSE PyEq(a.items[i], b.items[i])
+CrossEq(a, b) == a # b /\ PyEq(a, b)
+CrossEqTest(op, lo, ro) ==
+    CASE op \in {"==", "!="} -> CrossEq(lo, ro)
+      [] op \in {"in", "not in"} -> \E xo \in ElemsOf(ro) : CrossEq(lo, xo)
       [] OTHER -> FALSE
 
-\* (a) isinstance against int/float/bool forgets the int -> float -> complex promotion (same defect as C02's
-\*     numeric-promotion-lost-by-isinstance): a branch is typed Never / too narrowly although promoted values reach it
-Dev_NumericIsinstance(c) == UsesTest(c.prog, NumericIsinstance)
-\* (b) a loop body is analysed twice, not to a fixpoint: a variable that grows in every iteration (x = [x]) is inferred
-\*     two levels deep only
-Dev_LoopGrowth(c) == HasGrowthLoop(c.prog, FALSE)
-\* (c) tuple.__add__ with an operand that has an unpacked segment returns the united element type of one side only
-Dev_TupleAddUnpacked(c) == UsesExpr(c.prog, {"x + y"}) /\ (HasManyT(c.tx) \/ HasManyT(c.ty))
-DevClass(c) ==
-    IF Dev_NumericIsinstance(c) THEN "numeric-promotion-lost-by-isinstance"
-    ELSE IF Dev_LoopGrowth(c) THEN "loop-carried-growth-not-at-fixpoint"
-    ELSE IF Dev_TupleAddUnpacked(c) THEN "tuple-add-with-unpacked-segment"
-    ELSE "none"
+\* ---- (c) tuple.__add__: the element types of the LEFT operand are not part of the result type ------------------
+\* (the typeshed overload  __add__(self, value: tuple[_T_co, ...]) -> tuple[_T_co, ...]  is solved from `value` alone)
+Dev_TupleAddDropsLeft(lo, ro, val, inf) ==
+    /\ lo.c = "tuple" /\ ro.c = "tuple" /\ val.c = "tuple" /\ val.items = lo.items \o ro.items
+    /\ inf.k = "generic" /\ inf.c = "tuple" /\ Len(inf.args) = 1
+    /\ ObjOK(lo) /\ ObjOK(ro)
+    /\ AllMembers(SeqToSet(ro.items), inf.args[1])
+    /\ ~AllMembers(SeqToSet(lo.items), inf.args[1])
 
-\* e = [node, val, inferred]: node evaluated to runtime object val; pyanalyze inferred `inferred`
-Sound(e) == Member(e.val, e.inferred)
+\* ---- (b) a loop body is analysed twice, not to a fixpoint ------------------------------------------------------
+\* The first pass sees the values that enter the loop, the second pass the values one iteration produced.  A value
+\* whose data flow crossed the back edge of a loop twice or more (it was produced in iteration i from a value produced
+\* in iteration i-1 ... and is read in iteration >= i+1; e.g. the third x of `while t: x = [x]`) was seen by neither pass.
+\* carry(r) = number of back edges crossed by the flow that produced the current value of r, Delta = one more if the
+\* value was stored in an earlier iteration of a loop that is still running.
+Delta(st, r) == IF \E L \in LoopIds : st.stamp[r][L] >= 1 /\ st.it[L] > st.stamp[r][L] THEN 1 ELSE 0
+Carry(st, r) == st.cc[r] + Delta(st, r)
+Dev_LoopCarried(st, reads) == \E r \in reads : Carry(st, r) >= 1
 =============================================================================
